@@ -8,7 +8,7 @@ CFT = P + "cache_file_from_transport"
 
 
 def run(chk, prog):
-    chk.rules_live = ["R1", "R3", "R4", "R5"]
+    chk.rules_live = ["R1", "R3", "R4", "R5", "R6"]
     chk.explanation = (
         "Who-may-write + template rules over cache.rs: target files are written only through "
         "save_target (so the verified, atomic path of C06/C08 applies) with the digest prefix exactly "
@@ -71,6 +71,16 @@ def run(chk, prog):
         ret = ctx.origins.of_local(0)
         chk.require(bool(saves) and all(o.kind == "call" and o.key[0] in set(bb for bb, _ in saves) for o in ret), "R1", ctx.fn,
                     "returns-save-result", "cache_target does not return save_target's result (a failed save would be ignored)")
+        # .. and has no other way to succeed ("never stores a target that failed verification": a file that
+        # is merely present, e.g. from an earlier run, was not verified by this run)
+        okb = ctx.ok_return_blocks()
+        pos = []
+        for bb, t in saves:
+            pos.extend(ctx.track_call(bb).pos_edges(0))
+        p = ctx.cfg.witness_path(okb, pos) if okb else None
+        chk.require(p is None, "R1", ctx.fn, "ok-needs-save",
+                    "cache_target can return Ok without save_target having succeeded (e.g. because a file of that "
+                    "name is already there): unverified bytes stay in the cache", path=ctx.describe_path(p))
     # cache(): every requested / every listed target, errors propagate
     cctx = async_body(prog, P + "cache")
     if cctx is None:
@@ -113,6 +123,10 @@ def run(chk, prog):
     from . import c08
     from .c06 import SubCheck
     c08.run(SubCheck(chk, "R5"), prog)
+    # R6: 'a client .. loads a repository with identical role versions' needs every metadata file copied
+    # in full: the bound applied to each copy is that role's own limit (C09's cache provenance rule)
+    from . import c09
+    c09.r2_cache_provenance(SubCheck(chk, "R6"), prog)
 
 
 def r3_chain(chk, prog):
